@@ -53,7 +53,22 @@ def _replay_K_C08_c(ctx, finding):
     return bool(exs) and exs[0].lineno == 12       # the prompt is on docstring line 2, i.e. file line 11
 
 
-EXTRA_FINDING_REPLAYS = {'K-C08-c': _replay_K_C08_c}
+def _replay_K_C08_d(ctx, finding):
+    import os, shutil, tempfile
+    from xdoctest import core
+    d = tempfile.mkdtemp(prefix='xdocverif-')
+    try:
+        p = os.path.join(d, 'xdv_dynline_%d.py' % os.getpid())
+        with open(p, 'w') as f:
+            f.write('import os\n\n\ndef f():\n    """\n    text\n\n    Example:\n        >>> print(1)\n        1\n    """\n    return 1\n')
+        st = [e.lineno for e in core.parse_doctestables(p, analysis='static')]
+        dy = [e.lineno for e in core.parse_doctestables(p, analysis='dynamic')]
+        return st == [9] and dy == [5]
+    finally:
+        shutil.rmtree(d, ignore_errors=True)
+
+
+EXTRA_FINDING_REPLAYS = {'K-C08-c': _replay_K_C08_c, 'K-C08-d': _replay_K_C08_d}
 
 EXTRA_TEXT = {
     'C04': (" ADDED (Proofs/Compose2.lean, with C11): `default_options_run_like_leading_block` — a run with default options equals, part for part (indices shifted "
